@@ -41,7 +41,7 @@ fn main() {
     let args: Vec<String> = std::env::args().collect();
     let seed: u64 = args[1].parse().unwrap();
     let n: usize = args[2].parse().unwrap();
-    std::panic::set_hook(Box::new(|_| {}));
+    ezpz_verif_harness::oracle::arm_crash_reporter("C02");
     let mut rng = Rng::new(seed);
     let mut out: Vec<Violation> = Vec::new();
     let (mut systems, mut checked, mut excl_degenerate, mut excl_illcond, mut excl_branch, mut excl_not_exact) = (0usize, 0usize, 0usize, 0usize, 0usize, 0usize);
@@ -74,6 +74,7 @@ fn main() {
         let sys = if short { short_features += 1; with_short_feature(&mut rng, sys) } else { sys };
         let _ = i;
         systems += 1;
+        ezpz_verif_harness::oracle::note_current(&sys);
         let xs = sys.planted.clone().unwrap();
         let x0: Vec<f64> = sys.guesses.iter().map(|g| g.1).collect();
         // exclusions (decided by the oracle from the planted geometry, not by the solver's thresholds)
